@@ -1,5 +1,631 @@
-import CachedModel
+/-
+  C17  Valid calls never panic or kill a background worker.
+
+  Statements about `CachedModel/State.lean` (Layer A). A panic in the calling thread is the output `.panic p`; a panic
+  of the command worker is the output `.workerPanic p` of its step together with `worker := .dead`; an index out of
+  bounds inside the sketch (worker or access-count consumer) is the step result `.error sketchPanic`.
+
+  The property is FALSE of the code at a few boundaries. What is proved:
+    * `C17_put_no_panic`, `C17_other_calls_no_panic`: every call but `put_or_update` is panic-free under the
+      documented precondition (positive weight) alone;
+    * `C17_upsert_no_panic`: `put_or_update` is panic-free under the side conditions (a)–(f) — (a), (b) are documented
+      preconditions, (c)–(f) are NOT: `C17_counterexample_time_overflow_caller`, `C17_counterexample_ttl_removal`,
+      `C17_counterexample_weight_overflow_caller` show they are needed;
+    * `C17_worker_no_panic`: the worker survives a step unless `now + ttl` of a queued put, or the `i64` arithmetic of a
+      queued weight update, overflows: `C17_counterexample_worker_time_overflow`,
+      `C17_counterexample_worker_weight_overflow` (all five counterexamples are reached from the initial state by API
+      calls with valid arguments);
+    * `C17_dead_worker_consequences`: a dead worker stays dead, its step is never enabled again (so the
+      acknowledgements of commands it had not executed stay pending, as in the counterexamples), every later send fails;
+    * `C17_sweeper_consumer_never_panic`, `C17_no_sketch_panic`: the sweeper has no panic site; the consumer and the
+      worker index the sketch in bounds whenever the sketch is well formed (`FreqCounter.WF`, C14);
+    * `C17_step_no_panic`, `C17_run_no_panic`: the summary over all events of the model, and over sequences of them.
+-/
+import CachedProofs.Lemmas.Upsert
 
 namespace Cached
+
+/-! ### calls other than `put_or_update` -/
+
+/-- the four puts: a positive weight (explicit, or computed by the weight function) is all that is needed -/
+theorem C17_put_no_panic (s : State) (c k v t : Nat) (w : Int) (p : Panic) :
+    (0 < w → (clientPutW s c k v w).2 ≠ .panic p ∧ (clientPutWTtl s c k v w t).2 ≠ .panic p) ∧
+    (0 < s.cfg.weightOf v false → (clientPut s c k v).2 ≠ .panic p) ∧
+    (0 < s.cfg.weightOf v true → (clientPutTtl s c k v t).2 ≠ .panic p) := by
+  refine ⟨fun hw => ⟨?_, ?_⟩, fun hw => ?_, fun hw => ?_⟩
+  · unfold clientPutW
+    split; simp; split; (exfalso; omega); exact clientPutChecked_no_panic _ _ _ _ _ _ _
+  · unfold clientPutWTtl
+    split; simp; split; (exfalso; omega); exact clientPutChecked_no_panic _ _ _ _ _ _ _
+  · unfold clientPut
+    simp only []
+    split; (exfalso; omega); split; simp; exact clientPutChecked_no_panic _ _ _ _ _ _ _
+  · unfold clientPutTtl
+    split; simp; simp only []; split; (exfalso; omega); exact clientPutChecked_no_panic _ _ _ _ _ _ _
+
+/-- delete, shutdown, a resumed (parked) call, the reads, clock moves, polling an acknowledgement, the weight and
+    statistics getters: no panic site at all -/
+theorem C17_other_calls_no_panic (s : State) (o : Oracle) (p : Panic) :
+    (∀ c k, (clientDelete s c k).2 ≠ .panic p) ∧
+    (∀ c, (clientShutdown s c).2 ≠ .panic p) ∧
+    (∀ c r, resume s c = .ok r → r.2 ≠ .panic p) ∧
+    (∀ k s' out o', clientGet s k o = .ok (s', out, o') → out ≠ .panic p) ∧
+    (∀ ks s' out o', clientMultiGet s ks o = .ok (s', out, o') → out ≠ .panic p) ∧
+    (∀ d s' out o', step s (.advance d) o = .ok (s', out, o') → out ≠ .panic p) ∧
+    (∀ h s' out o', step s (.poll h) o = .ok (s', out, o') → out ≠ .panic p) ∧
+    (∀ s' out o', step s .weight o = .ok (s', out, o') → out ≠ .panic p) ∧
+    (∀ s' out o', step s .stats o = .ok (s', out, o') → out ≠ .panic p) := by
+  refine ⟨?_, ?_, ?_, ?_, ?_, ?_, ?_, ?_, ?_⟩
+  · intro c k
+    unfold clientDelete; split; simp; exact sendCmd_no_panic _ _ _ _
+  · exact fun c => clientShutdown_no_panic s c p
+  · exact fun c r h => resume_no_panic s c r h p
+  · intro k s' out o' h
+    unfold clientGet at h
+    split at h
+    · simp only [Except.ok.injEq, Prod.mk.injEq] at h; obtain ⟨_, rfl, _⟩ := h; simp
+    · split at h
+      · simp only [Except.ok.injEq, Prod.mk.injEq] at h; obtain ⟨_, rfl, _⟩ := h; simp
+      · cases h
+  · intro ks s' out o' h
+    unfold clientMultiGet at h
+    split at h
+    · simp only [Except.ok.injEq, Prod.mk.injEq] at h; obtain ⟨_, rfl, _⟩ := h; simp
+    · split at h
+      · simp only [Except.ok.injEq, Prod.mk.injEq] at h; obtain ⟨_, rfl, _⟩ := h; simp
+      · cases h
+  · intro d s' out o' h
+    simp only [step, Except.ok.injEq, Prod.mk.injEq] at h; obtain ⟨_, rfl, _⟩ := h; simp
+  · intro hd s' out o' h
+    simp only [step] at h
+    split at h
+    · simp only [Except.ok.injEq, Prod.mk.injEq] at h; obtain ⟨_, rfl, _⟩ := h; simp
+    · cases h
+  · intro s' out o' h
+    simp only [step, Except.ok.injEq, Prod.mk.injEq] at h; obtain ⟨_, rfl, _⟩ := h; simp
+  · intro s' out o' h
+    simp only [step, Except.ok.injEq, Prod.mk.injEq] at h; obtain ⟨_, rfl, _⟩ := h; simp
+
+/-! ### `put_or_update` -/
+
+/-- **`put_or_update` does not panic** under:
+    (a) an explicit weight is positive, and (when no explicit weight is given) the weight function is positive on the
+        given value — the documented precondition;
+    (b) a physically absent key comes with a value — the documented precondition;
+    (c) for a present key, `now + ttl` is representable;
+    (d) when the request only removes the TTL of a present key that has one (no weight, no value): the charged weight
+        exceeds `ttlEntry` (and the difference is an `i64`);
+    (e) when the request only adds a TTL to a present key that has none: charged weight `+ ttlEntry` is a positive `i64`;
+    (f) the weight that is sent (explicit, or the weight function's) is an `i64`.
+    `chargedWeight s id` is the weight charged for `id`, 0 if none. Each hypothesis is only asked where it is used,
+    which makes the theorem stronger than with unconditional (a)–(f). -/
+theorem C17_upsert_no_panic (s : State) (c k : Nat) (v : Option Nat) (w : Option Int) (ttl : Option Nat) (rm : Bool)
+    (ha1 : ∀ x, w = some x → 0 < x)
+    (ha2 : ∀ val, v = some val → w = none → 0 < s.cfg.weightOf val ttl.isSome)
+    (hb : s.store.get? k = none → v.isSome = true)
+    (hc : ∀ e t, s.store.get? k = some e → ttl = some t → rm = false → ∃ x, addTime s.now t = some x)
+    (hd : ∀ e a, s.store.get? k = some e → e.expiry = some a → rm = true → w = none → v = none →
+      s.cfg.ttlEntry < chargedWeight s e.id ∧ inI64 (chargedWeight s e.id - s.cfg.ttlEntry) = true)
+    (he : ∀ e t, s.store.get? k = some e → e.expiry = none → rm = false → ttl = some t → w = none → v = none →
+      0 < chargedWeight s e.id + s.cfg.ttlEntry ∧ inI64 (chargedWeight s e.id + s.cfg.ttlEntry) = true)
+    (hf1 : ∀ e x, s.store.get? k = some e → w = some x → inI64 x = true)
+    (hf2 : ∀ e val, s.store.get? k = some e → v = some val → w = none → inI64 (s.cfg.weightOf val ttl.isSome) = true)
+    (p : Panic) : (clientUpsert s c k v w ttl rm).2 ≠ .panic p := by
+  cases hsh : s.shutting with
+  | true => simp [clientUpsert, hsh]
+  | false =>
+    cases hk : s.store.get? k with
+    | none =>
+      have hv := hb hk
+      cases v with
+      | none => simp at hv
+      | some val =>
+        unfold clientUpsert
+        simp only [hsh, Bool.false_eq_true, if_false, hk]
+        cases w with
+        | none =>
+          have : ¬ s.cfg.weightOf val ttl.isSome ≤ 0 := by have := ha2 val rfl rfl; omega
+          simp only [Option.map_some, this, if_false]
+          cases ttl <;> exact sendCmd_no_panic _ _ _ _
+        | some x =>
+          have : ¬ x ≤ 0 := by have := ha1 x rfl; omega
+          simp only [this, if_false]
+          cases ttl <;> exact sendCmd_no_panic _ _ _ _
+    | some e =>
+      cases hne : upsertNewExpiry? s e ttl rm with
+      | none =>
+        obtain ⟨hrm, t, ht, hadd⟩ := upsertNewExpiry?_none hne
+        obtain ⟨x, hx⟩ := hc e t hk ht hrm
+        rw [hx] at hadd; cases hadd
+      | some ne =>
+        have hne' := upsertNewExpiry?_some hne
+        rw [clientUpsert_present s c k v w ttl rm e ne hsh hk hne]
+        apply upsertFinish_no_panic
+        intro x hx
+        unfold upsertWeight at hx
+        cases w with
+        | some y =>
+          simp only [Option.some.injEq] at hx; subst hx
+          exact ⟨hf1 e y hk rfl, ha1 y rfl⟩
+        | none =>
+          cases v with
+          | some val =>
+            simp only [Option.some.injEq] at hx; subst hx
+            exact ⟨hf2 e val hk rfl rfl, ha2 val rfl rfl⟩
+          | none =>
+            simp only [] at hx
+            cases hexp : e.expiry with
+            | none =>
+              cases ne with
+              | none => simp [hexp] at hx
+              | some n =>
+                simp only [hexp, Option.some.injEq] at hx; subst hx
+                cases rm with
+                | true => simp [upsertExpiry] at hne'
+                | false =>
+                  cases ttl with
+                  | none => simp [upsertExpiry, hexp] at hne'
+                  | some t =>
+                    obtain ⟨h1, h2⟩ := he e t hk hexp rfl rfl rfl rfl
+                    exact ⟨h2, h1⟩
+            | some a =>
+              cases ne with
+              | some n => simp [hexp] at hx
+              | none =>
+                simp only [hexp, Option.some.injEq] at hx; subst hx
+                cases rm with
+                | false =>
+                  cases ttl with
+                  | none => simp [upsertExpiry, hexp] at hne'
+                  | some t => simp [upsertExpiry] at hne'
+                | true =>
+                  obtain ⟨h1, h2⟩ := hd e a hk hexp rfl rfl rfl
+                  exact ⟨h2, by omega⟩
+
+def c17Cfg : Cfg := { maxWeight := 100, shards := 2, cmdCap := 4, poolSize := 1, bufSize := 2, counters := 2 }
+
+/-- `put_with_weight_and_ttl(k=1, v=10, w=5, ttl 1 s)` at second 3, executed: key 1 charged 5, deadline second 4 -/
+def c17Light : State :=
+  { (State.init c17Cfg 3000000000 [1, 2, 3, 4]) with
+    store := [(1, { value := 10, id := 1, expiry := some 4000000000, soft := false })],
+    adm := { max := 100, used := 5, kw := [(1, { key := 1, hash := 1, weight := 5 })] },
+    ttl := [((0, 1), 4000000000)], nextId := 2, acks := [.accepted],
+    stats := { keysAdded := 1, weightAdded := 5 } }
+
+/-- **(d) is needed.** A key charged 5 with a time-to-live; `put_or_update(k).remove_time_to_live()` computes
+    `5 - 24`, and `assert!(weight > 0)` panics in the caller — AFTER the entry's deadline and its expiry-index entry
+    were already removed (the returned state); the weight charged for the key is still 5. -/
+theorem C17_counterexample_ttl_removal :
+    runEvents_Upsert (State.init c17Cfg 3000000000 [1, 2, 3, 4]) [.putWTtl 0 1 10 5 1000000000, .worker] = .ok c17Light ∧
+    chargedWeight c17Light 1 = 5 ∧ c17Light.cfg.ttlEntry = 24 ∧
+    ∃ s', clientUpsert c17Light 0 1 none none none true = (s', .panic .weightNotPositive) ∧
+      s'.store.get? 1 = some { value := 10, id := 1, expiry := none, soft := false } ∧ s'.ttl = [] ∧
+      s'.adm.kw.get? 1 = some { key := 1, hash := 1, weight := 5 } :=
+  ⟨rfl, rfl, rfl, _, rfl, rfl, rfl, rfl⟩
+
+/-- **(c) is needed.** `put_or_update(k).time_to_live(Duration::MAX)` on a present key: `now + ttl` overflows in the
+    caller (nothing was changed yet). -/
+theorem C17_counterexample_time_overflow_caller :
+    addTime c17Light.now 18446744073709551615999999999 = none ∧
+    clientUpsert c17Light 0 1 none none (some 18446744073709551615999999999) false =
+      (c17Light, .panic .timeOverflow) :=
+  ⟨by decide, rfl⟩
+
+def c17BigCfg : Cfg :=
+  { maxWeight := 9223372036854775807, shards := 2, cmdCap := 4, poolSize := 1, bufSize := 2, counters := 2 }
+
+/-- `put_with_weight(k=1, v=10, w = i64::MAX - 10)` into a cache of weight `i64::MAX`, executed -/
+def c17Heavy : State :=
+  { (State.init c17BigCfg 3000000000 [1, 2, 3, 4]) with
+    store := [(1, { value := 10, id := 1, expiry := none, soft := false })],
+    adm := { max := 9223372036854775807, used := 9223372036854775797,
+             kw := [(1, { key := 1, hash := 1, weight := 9223372036854775797 })] },
+    nextId := 2, acks := [.accepted],
+    stats := { keysAdded := 1, weightAdded := 9223372036854775797 } }
+
+/-- **(e) is needed.** Adding a time-to-live to that key computes `(i64::MAX - 10) + 24`: overflow in the caller,
+    after the deadline and the expiry-index entry were already written. -/
+theorem C17_counterexample_weight_overflow_caller :
+    runEvents_Upsert (State.init c17BigCfg 3000000000 [1, 2, 3, 4]) [.putW 0 1 10 9223372036854775797, .worker] = .ok c17Heavy ∧
+    inI64 (chargedWeight c17Heavy 1 + c17Heavy.cfg.ttlEntry) = false ∧
+    ∃ s', clientUpsert c17Heavy 0 1 none none (some 1000000000) false = (s', .panic .weightOverflow) ∧
+      s'.store.get? 1 = some { value := 10, id := 1, expiry := some 4000000000, soft := false } ∧
+      s'.ttl = [((0, 1), 4000000000)] :=
+  ⟨rfl, by decide, _, rfl, rfl, rfl⟩
+
+/-! ### the command worker -/
+
+/-- **The worker survives a step** (no `.workerPanic`, `worker` does not become `.dead`) provided: if the head command
+    is a put with time-to-live, `now + ttl` is representable (it is evaluated at the worker's clock); if it is a weight
+    update of a charged id, neither the difference to the old weight nor the new total overflows `i64`. -/
+theorem C17_worker_no_panic (s s' : State) (o o' : Oracle) (out : Out)
+    (hput : ∀ id hash w k v t h q, s.queue = (.putTtl id hash w k v t, h) :: q → ∃ x, addTime s.now t = some x)
+    (hupd : ∀ id w h q wk, s.queue = (.updateWeight id w, h) :: q → s.adm.kw.get? id = some wk →
+      inI64 (w - wk.weight) = true ∧ inI64 (s.adm.used + (w - wk.weight)) = true)
+    (h : workerStep s o = .ok (s', out, o')) :
+    (∀ p, out ≠ .workerPanic p) ∧ (∀ p, out ≠ .panic p) ∧ s'.worker ≠ .dead := by
+  cases hw : s.worker with
+  | dead => simp [workerStep, hw] at h
+  | draining =>
+    cases hq : s.queue with
+    | nil => simp [workerStep, hw, hq] at h
+    | cons pr q =>
+      simp only [workerStep, hw, hq, Except.ok.injEq, Prod.mk.injEq] at h
+      obtain ⟨rfl, rfl, _⟩ := h
+      simp
+  | running =>
+    cases hq : s.queue with
+    | nil => simp [workerStep, hw, hq] at h
+    | cons pr q =>
+      obtain ⟨cmd, hd⟩ := pr
+      rw [workerStep_running s o cmd hd q hw hq] at h
+      have hrun : ({ s with queue := q } : State).worker = .running := hw
+      cases cmd with
+      | shutdown =>
+        simp only [Except.ok.injEq, Prod.mk.injEq] at h
+        obtain ⟨rfl, rfl, _⟩ := h
+        simp
+      | put id hash w k v =>
+        simp only [] at h
+        split at h
+        · rename_i r hr
+          obtain ⟨r, o1⟩ := r
+          obtain ⟨hdone, hwk⟩ := workerPut_done (by intro t ht; cases ht) hr
+          obtain ⟨h1, h2, h3⟩ := workerFinish_done hdone h
+          exact ⟨h1, h2, by rw [h3, hwk, hrun]; simp⟩
+        · cases h
+      | putTtl id hash w k v t =>
+        simp only [] at h
+        split at h
+        · rename_i r hr
+          obtain ⟨r, o1⟩ := r
+          obtain ⟨hdone, hwk⟩ := workerPut_done (s := { s with queue := q })
+            (by intro t' ht; cases ht; exact hput _ _ _ _ _ _ _ _ hq) hr
+          obtain ⟨h1, h2, h3⟩ := workerFinish_done hdone h
+          exact ⟨h1, h2, by rw [h3, hwk, hrun]; simp⟩
+        · cases h
+      | updateWeight id w =>
+        obtain ⟨hdone, hwk⟩ := workerUpdateWeight_done { s with queue := q } id w (fun wk hk => hupd _ _ _ _ wk hq hk)
+        obtain ⟨h1, h2, h3⟩ := workerFinish_done hdone h
+        exact ⟨h1, h2, by rw [h3, hwk, hrun]; simp⟩
+      | delete k =>
+        obtain ⟨hdone, hwk⟩ := workerDelete_done { s with queue := q } k
+        obtain ⟨h1, h2, h3⟩ := workerFinish_done hdone h
+        exact ⟨h1, h2, by rw [h3, hwk, hrun]; simp⟩
+
+/-- **The time-to-live condition is needed** (§8-D8). `put_with_weight_and_ttl(k=1, v=10, w=5, Duration::MAX)` is
+    accepted by the caller and queued; the worker's admission lets the key in (weight 5 charged), then panics in `now + ttl`: it is
+    dead, the command's acknowledgement stays pending forever, the weight stays charged although no entry was stored. -/
+theorem C17_counterexample_worker_time_overflow :
+    ∃ s1 s2, step (State.init c17Cfg 3000000000 [1, 2, 3, 4]) (.putWTtl 0 1 10 5 18446744073709551615999999999) {} =
+        .ok (s1, .ack 0 .pending, {}) ∧
+      step s1 .worker {} = .ok (s2, .workerPanic .timeOverflow, {}) ∧
+      s2.worker = .dead ∧ s2.acks[0]? = some .pending ∧
+      s2.adm.kw.get? 1 = some { key := 1, hash := 1, weight := 5 } ∧ s2.adm.used = 5 ∧ s2.store.get? 1 = none ∧
+      (clientPutW s2 0 2 20 5).2 = .err :=
+  ⟨_, _, rfl, rfl, rfl, rfl, rfl, rfl, rfl, rfl⟩
+
+/-- key 1 charged `i64::MAX - 10`, key 2 charged 5, `put_or_update(k=2).weight(100)` sent (valid: positive) -/
+def c17Full : State :=
+  { (State.init c17BigCfg 3000000000 [1, 2, 3, 4]) with
+    store := [(2, { value := 20, id := 2, expiry := none, soft := false }),
+              (1, { value := 10, id := 1, expiry := none, soft := false })],
+    adm := { max := 9223372036854775807, used := 9223372036854775802,
+             kw := [(2, { key := 2, hash := 2, weight := 5 }), (1, { key := 1, hash := 1, weight := 9223372036854775797 })] },
+    nextId := 3, acks := [.accepted, .accepted, .pending], queue := [(.updateWeight 2 100, some 2)],
+    stats := { keysAdded := 2, weightAdded := 9223372036854775802 } }
+
+/-- **The weight condition is needed** (§8-D9, boundary only). The running total `i64::MAX - 5 + 95` overflows in the
+    worker: it is dead and the acknowledgement stays pending. -/
+theorem C17_counterexample_worker_weight_overflow :
+    runEvents_Upsert (State.init c17BigCfg 3000000000 [1, 2, 3, 4])
+      [.putW 0 1 10 9223372036854775797, .worker, .putW 0 2 20 5, .worker, .upsert 0 2 none (some 100) none false] =
+      .ok c17Full ∧
+    ∃ s2, step c17Full .worker {} = .ok (s2, .workerPanic .weightOverflow, {}) ∧
+      s2.worker = .dead ∧ s2.acks[2]? = some .pending :=
+  ⟨rfl, _, rfl, rfl, rfl⟩
+
+/-- **Why the side conditions matter.** Once the worker is dead: every send fails (so every later put, delete and
+    weight-changing `put_or_update` returns an error), the worker never runs again (queued commands are never
+    executed, their acknowledgements never completed), and no event revives it. -/
+theorem C17_dead_worker_consequences (s : State) (hdead : s.worker = .dead) :
+    (∀ c cmd, sendCmd s c cmd = (s, .err)) ∧
+    (∀ o, workerStep s o = .error "illegal event: the worker is dead") ∧
+    (∀ ev o s' out o', step s ev o = .ok (s', out, o') → s'.worker = .dead) := by
+  refine ⟨fun c cmd => sendCmd_dead s c cmd hdead, ?_, ?_⟩
+  · intro o; simp [workerStep, hdead]
+  · intro ev o s' out o' h
+    cases ev with
+    | worker => simp [step, workerStep, hdead] at h
+    | _ => rw [step_worker_frame rfl h, hdead]
+
+/-! ### sweeper, access-count consumer, sketch -/
+
+/-- The sweeper has no panic site: a sweep either is an illegal event (the sweeper has exited) or answers `.swept _`.
+    The consumer's step answers `.consumed` or fails with an illegal-event / illegal-oracle error or with the sketch's
+    index-out-of-bounds panic — and that one cannot happen while the sketch is well formed; likewise `estimate`. -/
+theorem C17_sweeper_consumer_never_panic (s : State) (o : Oracle) :
+    (∀ s' out, sweepStep s = .ok (s', out) → ∃ ev, out = .swept ev) ∧
+    (∀ m, sweepStep s = .error m → m = "illegal event: the sweeper has exited") ∧
+    (∀ s' out o', consumerStep s o = .ok (s', out, o') → out = .consumed) ∧
+    (∀ m, consumerStep s o = .error m →
+      m = "illegal event: the consumer has exited" ∨ m = "illegal event: the buffer queue is empty" ∨
+      m = "oracle: add_if_missing results exhausted" ∨
+      m = "illegal oracle: doorkeeper added a hash it already holds" ∨ m = sketchPanic) ∧
+    (s.lfu.fc.WF → (∀ hs, incrementAll s.lfu hs o ≠ .error sketchPanic) ∧ consumerStep s o ≠ .error sketchPanic ∧
+      ∀ h, estimateO s.lfu h o ≠ .error sketchPanic) := by
+  refine ⟨fun s' out h => (sweepStep_ok h).1, ?_, fun s' out o' h => (consumerStep_ok h).1, ?_, ?_⟩
+  · intro m h
+    unfold sweepStep at h
+    split at h
+    · simp only [Except.error.injEq] at h; exact h.symm
+    · cases h
+  · intro m h
+    have hinc : ∀ (hs : List Nat) (t : TinyLFU) (o : Oracle) (m : String), incrementAll t hs o = .error m →
+        m = "oracle: add_if_missing results exhausted" ∨
+        m = "illegal oracle: doorkeeper added a hash it already holds" ∨ m = sketchPanic := by
+      intro hs
+      induction hs with
+      | nil => intro t o m h; simp [incrementAll] at h
+      | cons x hs ih =>
+        intro t o m h
+        unfold incrementAll at h
+        split at h
+        · simp only [Except.error.injEq] at h; exact Or.inl h.symm
+        · split at h
+          · simp only [Except.error.injEq] at h; exact Or.inr (Or.inl h.symm)
+          · split at h
+            · exact ih _ _ _ h
+            · simp only [Except.error.injEq] at h; exact Or.inr (Or.inr h.symm)
+    unfold consumerStep at h
+    split at h
+    · simp only [Except.error.injEq] at h; exact Or.inl h.symm
+    · split at h
+      · simp only [Except.error.injEq] at h; exact Or.inr (Or.inl h.symm)
+      · cases h
+      · split at h
+        · rename_i m' hm
+          simp only [Except.error.injEq] at h; subst h
+          exact Or.inr (Or.inr (hinc _ _ _ _ hm))
+        · split at h <;> cases h
+  · intro wf
+    exact ⟨fun hs => incrementAll_no_sketch_panic hs _ _ wf, consumerStep_no_sketch_panic s o wf,
+      fun h => estimateO_no_sketch_panic _ wf h o⟩
+
+/-- No step of the model — API call, worker, sweeper, consumer — indexes the sketch out of bounds while the sketch is
+    well formed. -/
+theorem C17_no_sketch_panic (s : State) (ev : Ev) (o : Oracle) (wf : s.lfu.fc.WF) :
+    step s ev o ≠ .error sketchPanic := by
+  cases ev with
+  | worker => exact workerStep_no_sketch_panic s o wf
+  | consumer => exact consumerStep_no_sketch_panic s o wf
+  | get k =>
+    simp only [step]
+    unfold clientGet
+    split
+    · simp
+    · split
+      · simp
+      · rename_i m hm
+        intro hc; simp only [Except.error.injEq] at hc; subst hc
+        exact readKey_no_sketch_panic _ _ _ hm
+  | multiGet ks =>
+    simp only [step]
+    unfold clientMultiGet
+    split
+    · simp
+    · split
+      · simp
+      · rename_i m hm
+        intro hc; simp only [Except.error.injEq] at hc; subst hc
+        exact readKeys_no_sketch_panic _ _ _ _ hm
+  | sweep =>
+    simp only [step]
+    split
+    · simp
+    · rename_i m hm
+      intro hc; simp only [Except.error.injEq] at hc; subst hc
+      have := (C17_sweeper_consumer_never_panic s o).2.1 _ hm
+      simp [sketchPanic] at this
+  | resume c =>
+    simp only [step]
+    split
+    · simp
+    · rename_i m hm
+      intro hc; simp only [Except.error.injEq] at hc; subst hc
+      unfold resume at hm
+      split at hm
+      · simp [sketchPanic] at hm
+      · simp only [] at hm
+        split at hm <;> split at hm <;> simp [sketchPanic] at hm
+  | poll h =>
+    simp only [step]
+    split <;> simp [sketchPanic]
+  | _ => simp [step]
+
+/-! ### summary -/
+
+/-- the preconditions of one event: the documented ones (positive weights, a value for an absent key) and the
+    side conditions (c)–(f) / the worker's, that the counterexamples show to be necessary -/
+def Ev.pre (s : State) : Ev → Prop
+  | .put _ _ v => 0 < s.cfg.weightOf v false
+  | .putW _ _ _ w => 0 < w
+  | .putTtl _ _ v _ => 0 < s.cfg.weightOf v true
+  | .putWTtl _ _ _ w _ => 0 < w
+  | .upsert _ k v w ttl rm =>
+    (∀ x, w = some x → 0 < x) ∧
+    (∀ val, v = some val → w = none → 0 < s.cfg.weightOf val ttl.isSome) ∧
+    (s.store.get? k = none → v.isSome = true) ∧
+    (∀ e t, s.store.get? k = some e → ttl = some t → rm = false → ∃ x, addTime s.now t = some x) ∧
+    (∀ e a, s.store.get? k = some e → e.expiry = some a → rm = true → w = none → v = none →
+      s.cfg.ttlEntry < chargedWeight s e.id ∧ inI64 (chargedWeight s e.id - s.cfg.ttlEntry) = true) ∧
+    (∀ e t, s.store.get? k = some e → e.expiry = none → rm = false → ttl = some t → w = none → v = none →
+      0 < chargedWeight s e.id + s.cfg.ttlEntry ∧ inI64 (chargedWeight s e.id + s.cfg.ttlEntry) = true) ∧
+    (∀ e x, s.store.get? k = some e → w = some x → inI64 x = true) ∧
+    (∀ e val, s.store.get? k = some e → v = some val → w = none → inI64 (s.cfg.weightOf val ttl.isSome) = true)
+  | .worker =>
+    (∀ id hash w k v t h q, s.queue = (.putTtl id hash w k v t, h) :: q → ∃ x, addTime s.now t = some x) ∧
+    (∀ id w h q wk, s.queue = (.updateWeight id w, h) :: q → s.adm.kw.get? id = some wk →
+      inI64 (w - wk.weight) = true ∧ inI64 (s.adm.used + (w - wk.weight)) = true)
+  | _ => True
+
+/-- **Summary.** A step whose event meets its preconditions does not panic in the caller, does not report a worker
+    panic, and leaves a live worker alive — hence so does
+    every sequence of such steps. -/
+theorem C17_step_no_panic (s s' : State) (ev : Ev) (o o' : Oracle) (out : Out) (hpre : ev.pre s)
+    (h : step s ev o = .ok (s', out, o')) :
+    (∀ p, out ≠ .panic p) ∧ (∀ p, out ≠ .workerPanic p) ∧ (s.worker ≠ .dead → s'.worker ≠ .dead) := by
+  have frame : ev.isWorker = false → (s.worker ≠ .dead → s'.worker ≠ .dead) :=
+    fun hev hne => by rw [step_worker_frame hev h]; exact hne
+  have nwp : ev.isWorker = false → ∀ p, out ≠ .workerPanic p := fun hev p => step_ne_workerPanic hev h p
+  have hoth := fun p => C17_other_calls_no_panic s o p
+  cases ev with
+  | worker =>
+    obtain ⟨h1, h2, h3⟩ := C17_worker_no_panic s s' o o' out hpre.1 hpre.2 h
+    exact ⟨h2, h1, fun _ => h3⟩
+  | put c k v =>
+    refine ⟨fun p => ?_, nwp rfl, frame rfl⟩
+    simp only [step, Except.ok.injEq, Prod.mk.injEq] at h; obtain ⟨_, rfl, _⟩ := h
+    exact (C17_put_no_panic s c k v 0 0 p).2.1 hpre
+  | putW c k v w =>
+    refine ⟨fun p => ?_, nwp rfl, frame rfl⟩
+    simp only [step, Except.ok.injEq, Prod.mk.injEq] at h; obtain ⟨_, rfl, _⟩ := h
+    exact ((C17_put_no_panic s c k v 0 w p).1 hpre).1
+  | putTtl c k v t =>
+    refine ⟨fun p => ?_, nwp rfl, frame rfl⟩
+    simp only [step, Except.ok.injEq, Prod.mk.injEq] at h; obtain ⟨_, rfl, _⟩ := h
+    exact (C17_put_no_panic s c k v t 0 p).2.2 hpre
+  | putWTtl c k v w t =>
+    refine ⟨fun p => ?_, nwp rfl, frame rfl⟩
+    simp only [step, Except.ok.injEq, Prod.mk.injEq] at h; obtain ⟨_, rfl, _⟩ := h
+    exact ((C17_put_no_panic s c k v t w p).1 hpre).2
+  | upsert c k v w ttl rm =>
+    refine ⟨fun p => ?_, nwp rfl, frame rfl⟩
+    simp only [step, Except.ok.injEq, Prod.mk.injEq] at h; obtain ⟨_, rfl, _⟩ := h
+    obtain ⟨a1, a2, b, c', d, e, f1, f2⟩ := hpre
+    exact C17_upsert_no_panic s c k v w ttl rm a1 a2 b c' d e f1 f2 p
+  | delete c k =>
+    refine ⟨fun p => ?_, nwp rfl, frame rfl⟩
+    simp only [step, Except.ok.injEq, Prod.mk.injEq] at h; obtain ⟨_, rfl, _⟩ := h
+    exact (hoth p).1 c k
+  | get k => exact ⟨fun p => (hoth p).2.2.2.1 k s' out o' h, nwp rfl, frame rfl⟩
+  | multiGet ks => exact ⟨fun p => (hoth p).2.2.2.2.1 ks s' out o' h, nwp rfl, frame rfl⟩
+  | weight => exact ⟨fun p => (hoth p).2.2.2.2.2.2.2.1 s' out o' h, nwp rfl, frame rfl⟩
+  | stats => exact ⟨fun p => (hoth p).2.2.2.2.2.2.2.2 s' out o' h, nwp rfl, frame rfl⟩
+  | sweep =>
+    refine ⟨fun p => ?_, nwp rfl, frame rfl⟩
+    simp only [step] at h
+    split at h
+    · rename_i r hr
+      simp only [Except.ok.injEq, Prod.mk.injEq] at h; obtain ⟨_, rfl, _⟩ := h
+      obtain ⟨ev, hev⟩ := (sweepStep_ok (s' := r.1) (out := r.2) hr).1
+      simp [hev]
+    · cases h
+  | consumer =>
+    refine ⟨fun p => ?_, nwp rfl, frame rfl⟩
+    rw [(consumerStep_ok h).1]; simp
+  | advance d => exact ⟨fun p => (hoth p).2.2.2.2.2.1 d s' out o' h, nwp rfl, frame rfl⟩
+  | shutdown c =>
+    refine ⟨fun p => ?_, nwp rfl, frame rfl⟩
+    simp only [step, Except.ok.injEq, Prod.mk.injEq] at h; obtain ⟨_, rfl, _⟩ := h
+    exact (hoth p).2.1 c
+  | resume c =>
+    refine ⟨fun p => ?_, nwp rfl, frame rfl⟩
+    simp only [step] at h
+    split at h
+    · rename_i r hr
+      simp only [Except.ok.injEq, Prod.mk.injEq] at h; obtain ⟨_, rfl, _⟩ := h
+      exact (hoth p).2.2.1 c r hr
+    · cases h
+  | poll hd => exact ⟨fun p => (hoth p).2.2.2.2.2.2.1 hd s' out o' h, nwp rfl, frame rfl⟩
+
+/-- a history in which every event meets its preconditions in the state it runs in, with the outputs it produced -/
+inductive ValidRun : State → List (Ev × Out) → State → Prop
+  | nil (s : State) : ValidRun s [] s
+  | cons {s s' s'' : State} {ev : Ev} {o o' : Oracle} {out : Out} {tr : List (Ev × Out)} :
+      ev.pre s → step s ev o = .ok (s', out, o') → ValidRun s' tr s'' → ValidRun s ((ev, out) :: tr) s''
+
+/-- **No sequence** of such steps panics in a caller or kills the worker. -/
+theorem C17_run_no_panic {s s' : State} {tr : List (Ev × Out)} (hr : ValidRun s tr s') (hw : s.worker ≠ .dead) :
+    s'.worker ≠ .dead ∧ ∀ ev out, (ev, out) ∈ tr → (∀ p, out ≠ .panic p) ∧ (∀ p, out ≠ .workerPanic p) := by
+  induction hr with
+  | nil s => exact ⟨hw, by simp⟩
+  | @cons s s1 s2 ev o o' out tr hpre hstep _ ih =>
+    obtain ⟨h1, h2, h3⟩ := C17_step_no_panic s s1 ev o o' out hpre hstep
+    obtain ⟨ih1, ih2⟩ := ih (h3 hw)
+    refine ⟨ih1, ?_⟩
+    intro ev' out' hmem
+    simp only [List.mem_cons, Prod.mk.injEq] at hmem
+    rcases hmem with ⟨rfl, rfl⟩ | hmem
+    · exact ⟨h1, h2⟩
+    · exact ih2 _ _ hmem
+
+/-! ### Non-vacuity -/
+
+/-- the sketch of a freshly built cache is well formed (hypothesis of `C17_no_sketch_panic` and of the last part of
+    `C17_sweeper_consumer_never_panic`) -/
+example : (State.init c17Cfg 3000000000 [1, 2, 3, 4]).lfu.fc.WF := by
+  refine ⟨⟨by decide, by decide, by decide⟩, by decide⟩
+
+/-- the puts: valid arguments, and the call indeed goes through -/
+example : (0 : Int) < 5 ∧ 0 < c17Light.cfg.weightOf 20 false ∧ 0 < c17Light.cfg.weightOf 20 true ∧
+    (clientPutW c17Light 0 2 20 5).2 = .ack 1 .pending ∧ (clientPutTtl c17Light 0 2 20 1000000000).2 = .ack 1 .pending :=
+  ⟨by decide, by decide, by decide, rfl, rfl⟩
+
+/-- key 1 charged 29 (= 5 + the TTL surcharge 24) with a time-to-live -/
+def c17Ok : State :=
+  { c17Light with adm := { max := 100, used := 29, kw := [(1, { key := 1, hash := 1, weight := 29 })] } }
+
+/-- (a)–(f) hold, non-trivially in (d), for a TTL removal on it; the call is queued as `UpdateWeight(1, 5)` -/
+example : Ev.pre c17Ok (.upsert 0 1 none none none true) ∧
+    clientUpsert c17Ok 0 1 none none none true =
+      ({ c17Ok with store := [(1, { value := 10, id := 1, expiry := none, soft := false })], ttl := [],
+                    queue := [(.updateWeight 1 5, some 1)], acks := [.accepted, .pending] }, .ack 1 .pending) := by
+  refine ⟨⟨nofun, nofun, ?_, nofun, ?_, nofun, nofun, nofun⟩, rfl⟩
+  · intro h; exact absurd h (by decide)
+  · intro e a hk _ _ _ _
+    have : e = { value := 10, id := 1, expiry := some 4000000000, soft := false } := by
+      have h2 : c17Ok.store.get? 1 = some { value := 10, id := 1, expiry := some 4000000000, soft := false } := rfl
+      rw [h2] at hk; exact (Option.some.inj hk).symm
+    subst this
+    decide
+
+/-- (c) holds, non-trivially, for a TTL change with a new value and explicit weight on the same key -/
+example : Ev.pre c17Ok (.upsert 0 1 (some 11) (some 7) (some 2000000000) false) := by
+  refine ⟨?_, nofun, ?_, ?_, nofun, nofun, ?_, nofun⟩
+  · intro x hx; cases hx; decide
+  · intro h; exact absurd h (by decide)
+  · intro e t _ ht _; cases ht; exact ⟨5000000000, by decide⟩
+  · intro e x _ hx; cases hx; decide
+
+/-- the worker's preconditions hold, non-trivially, for a queued put with a one-second time-to-live and for a queued
+    weight update of a charged id; the worker then survives (by `C17_worker_no_panic`, and by evaluation) -/
+example :
+    let s1 : State := { c17Light with queue := [(.putTtl 2 2 5 2 20 1000000000, some 1)], acks := [.accepted, .pending] }
+    let s2 : State := { c17Light with queue := [(.updateWeight 1 7, some 1)], acks := [.accepted, .pending] }
+    Ev.pre s1 .worker ∧ Ev.pre s2 .worker ∧
+    (match workerStep s1 {} with | .ok (s', _, _) => s'.worker | .error _ => .dead) = .running ∧
+    (match workerStep s2 {} with | .ok (s', _, _) => s'.adm.kw.get? 1 | .error _ => none) =
+      some { key := 1, hash := 1, weight := 7 } := by
+  refine ⟨⟨?_, ?_⟩, ⟨?_, ?_⟩, rfl, rfl⟩
+  · intro id hash w k v t h q hq
+    simp only [List.cons.injEq, Prod.mk.injEq, Cmd.putTtl.injEq] at hq
+    obtain ⟨⟨⟨_, _, _, _, _, rfl⟩, _⟩, _⟩ := hq
+    exact ⟨4000000000, by decide⟩
+  · intro id w h q wk hq; simp at hq
+  · intro id hash w k v t h q hq; simp at hq
+  · intro id w h q wk hq hk
+    simp only [List.cons.injEq, Prod.mk.injEq, Cmd.updateWeight.injEq] at hq
+    obtain ⟨⟨⟨rfl, rfl⟩, _⟩, _⟩ := hq
+    have h2 : c17Light.adm.kw.get? 1 = some { key := 1, hash := 1, weight := 5 } := rfl
+    have hk' : c17Light.adm.kw.get? 1 = some wk := hk
+    rw [h2] at hk'
+    cases hk'
+    decide
+
+/-- `C17_dead_worker_consequences`: a dead worker is reachable (by `C17_counterexample_worker_time_overflow`) -/
+example : ∃ s1 s2 out, step (State.init c17Cfg 3000000000 [1, 2, 3, 4]) (.putWTtl 0 1 10 5 18446744073709551615999999999) {} =
+      .ok (s1, out, {}) ∧ step s1 .worker {} = .ok (s2, .workerPanic .timeOverflow, {}) ∧ s2.worker = .dead :=
+  ⟨_, _, _, rfl, rfl, rfl⟩
 
 end Cached
